@@ -781,35 +781,49 @@ def replay(func, call):
         KID = [None, "a", "b", "c"]
         karg, resolve = _real_keys(keyform)
         pseg = R.b64e(PAYLOAD)
-        sigs, all_ok = [], n >= 1
-        for i in range(n):
-            p, u = {}, {}
-            (p if (prot[i] and aprot[i]) else u)["alg"] = "HS256" if i == 0 else "HS384"
-            if KID[ks[i]] is not None:
-                u["kid"] = KID[ks[i]]
-            d = {}
-            pr = ""
-            if prot[i]:
-                pr = R.b64e(json.dumps(p, separators=(",", ":")).encode())
-                d["protected"] = pr
-            if u:
-                d["header"] = u
-            merged = dict(p)
-            merged.update(u)
-            jwk = resolve(merged)
-            si = pr.encode() + b"." + pseg.encode()
-            d["signature"] = R.b64e(_real_sig(merged["alg"], jwk or R.test_key("oct32"), si, vrs[i]))
-            sigs.append(d)
-            ok = jwk is not None and R.jws_verify(merged["alg"], jwk, si, R.b64d(d["signature"])) and allowed(merged["alg"], ALLOW[allow_i])
-            all_ok = all_ok and ok
-        value = dict(sigs[0]) if flat else ({"signatures": sigs} if sigs_present else {})
-        if with_payload:
-            value["payload"] = pseg
-        try:
-            obj = jws.deserialize_json(value, karg, ALLOW[allow_i])
-        except Exception as e:  # noqa
-            return {"violated": False, "detail": "real code rejected: %s" % type(e).__name__}
-        return _judge("json", True, obj.payload, all_ok and with_payload and sigs_present, PAYLOAD, "value=%r" % (value,))
+        import random as _random
+        pool = [dict(R.test_key("oct32"), kid="a"), dict(R.test_key("oct48"), kid="b")]
+        last = None
+        # a signature whose key the set cannot resolve is made, in turn, with each key of the set while random.choice is steered to that
+        # key: an implementation that silently picks a key instead of refusing is then caught whatever it picks
+        for cand in range(2):
+            sigs, all_ok = [], n >= 1
+            for i in range(n):
+                p, u = {}, {}
+                (p if (prot[i] and aprot[i]) else u)["alg"] = "HS256" if i == 0 else "HS384"
+                if KID[ks[i]] is not None:
+                    u["kid"] = KID[ks[i]]
+                d = {}
+                pr = ""
+                if prot[i]:
+                    pr = R.b64e(json.dumps(p, separators=(",", ":")).encode())
+                    d["protected"] = pr
+                if u:
+                    d["header"] = u
+                merged = dict(p)
+                merged.update(u)
+                jwk = resolve(merged)
+                si = pr.encode() + b"." + pseg.encode()
+                d["signature"] = R.b64e(_real_sig(merged["alg"], jwk or pool[cand], si, vrs[i]))
+                sigs.append(d)
+                ok = jwk is not None and R.jws_verify(merged["alg"], jwk, si, R.b64d(d["signature"])) and allowed(merged["alg"], ALLOW[allow_i])
+                all_ok = all_ok and ok
+            value = dict(sigs[0]) if flat else ({"signatures": sigs} if sigs_present else {})
+            if with_payload:
+                value["payload"] = pseg
+            oc = _random.choice
+            _random.choice = lambda seq, _c=cand: seq[_c % len(seq)]
+            try:
+                obj = jws.deserialize_json(value, karg, ALLOW[allow_i])
+            except Exception as e:  # noqa
+                last = {"violated": False, "detail": "real code rejected: %s" % type(e).__name__}
+                continue
+            finally:
+                _random.choice = oc
+            last = _judge("json", True, obj.payload, all_ok and with_payload and sigs_present, PAYLOAD, "value=%r" % (value,))
+            if last["violated"]:
+                return last
+        return last
     if func in ("rfc7797_compact", "rfc7797_compact_witness"):
         has_b64, b64_i, has_crit, crit_lists_b64, p_empty, given, vr = args
         hdr = {"alg": "HS256"}
